@@ -13,6 +13,9 @@ package main
 //   c18.srp <pw> <salt1> <salt2> <g> <p> <random> <srpB> <x|?> <v|?> <b|?>
 //   c18.pub <pw> <mp|other|nil> <salt1> <salt2> <g> <p> <srpB> <srpId> <x|?> <v|?> <b|?>
 //   c18.ph2 <pw> <salt1> <salt2>
+//   c18.seq <c18.srp …> ; <c18.srp …> ; …      several exchanges one after the other in one process (one
+//        client logging into several accounts): results joined with " ; ". Every exchange is judged as if it
+//        stood alone — what an earlier exchange left behind must not change a later one.
 
 import (
 	"bytes"
@@ -226,7 +229,32 @@ func (a *c18Args) verdict(ga, m1 []byte) string {
 
 // ---- executor: the real code ---------------------------------------------------------------------
 
+// c18Split: the exchanges of a c18.seq line
+func c18Split(op []string) [][]string {
+	var out [][]string
+	cur := []string{}
+	for _, t := range op[1:] {
+		if t == ";" {
+			out = append(out, cur)
+			cur = []string{}
+			continue
+		}
+		cur = append(cur, t)
+	}
+	return append(out, cur)
+}
+
 func c18Exec(op []string) string {
+	if len(op) > 0 && op[0] == "c18.seq" {
+		var outs []string
+		for _, sub := range c18Split(op) {
+			if len(sub) == 0 || sub[0] == "c18.seq" {
+				return "bad-op"
+			}
+			outs = append(outs, safeExec(&Prop{Exec: c18Exec}, sub))
+		}
+		return strings.Join(outs, " ; ")
+	}
 	if len(op) == 4 && op[0] == "c18.ph2" {
 		// the repository exposes no PH2 entry point; this op compares the Lean KDF with the harness's
 		return hex.EncodeToString(c18PH2(parseBytes(op[1]), parseBytes(op[2]), parseBytes(op[3])))
@@ -293,6 +321,28 @@ func c18Exec(op []string) string {
 // ---- judge: the property on the real code's result, by the harness's own server -------------------
 
 func c18Judge(op []string, out string) string {
+	if len(op) > 0 && op[0] == "c18.seq" {
+		subs, outs := c18Split(op), strings.Split(out, " ; ")
+		if out == "bad-op" {
+			return ""
+		}
+		if len(subs) != len(outs) {
+			return "a sequence of " + strconv.Itoa(len(subs)) + " exchanges gave " + strconv.Itoa(len(outs)) + " results"
+		}
+		for i, sub := range subs {
+			if why := c18Judge(sub, outs[i]); why != "" {
+				prev := []string{}
+				for _, q := range subs[:i] {
+					if len(q) > 3 {
+						prev = append(prev, "("+q[1]+","+q[2]+","+q[3]+")")
+					}
+				}
+				return fmt.Sprintf("exchange %d of %d in one process, (password,salt1,salt2) = (%s,%s,%s), after the exchanges for %s: %s",
+					i+1, len(subs), sub[1], sub[2], sub[3], strings.Join(prev, " "), why)
+			}
+		}
+		return ""
+	}
 	if len(op) > 0 && op[0] == "c18.ph2" {
 		return ""
 	}
@@ -425,7 +475,8 @@ type c18Group struct {
 func c18HexN(n *big.Int) string { return hexD(n.Bytes()) }
 
 type c18Gen struct {
-	g *G
+	g       *G
+	collect *[]string // when set, emitSrp appends its line here instead of emitting it (c18.seq)
 }
 
 // leadingZeros of the 256-byte form
@@ -449,8 +500,50 @@ func (c *c18Gen) emitSrp(t c18Triple, gr c18Group, random, srpB []byte, xKnown b
 	if v != nil {
 		vt, bt = c18HexN(v), c18HexN(b)
 	}
-	c.g.Emit(fmt.Sprintf("c18.srp %s %s %s %d %s %s %s %s %s %s", hexD(t.pw), hexD(t.s1), hexD(t.s2), gr.g,
-		hexD(gr.pB), hexD(random), hexD(srpB), xTok, vt, bt), append(tags, "group:"+gr.name, "pw:"+t.name)...)
+	line := fmt.Sprintf("c18.srp %s %s %s %d %s %s %s %s %s %s", hexD(t.pw), hexD(t.s1), hexD(t.s2), gr.g,
+		hexD(gr.pB), hexD(random), hexD(srpB), xTok, vt, bt)
+	if c.collect != nil {
+		*c.collect = append(*c.collect, line)
+		return
+	}
+	c.g.Emit(line, append(tags, "group:"+gr.name, "pw:"+t.name)...)
+}
+
+// sameConcat: triples whose bytes password|salt1|salt2 are those of t, with the two boundaries elsewhere —
+// different accounts and passwords for the server (PH2 salts by position), one and the same string for
+// anything that forgets where the parts end.
+func (c *c18Gen) sameConcat(t c18Triple) []c18Triple {
+	r := c.g.R
+	cp := func(parts ...[]byte) []byte { return bytes.Join(parts, nil) }
+	var out []c18Triple
+	if n := len(t.s1); n > 0 {
+		k := 1 + r.Intn(min(n, 3))
+		out = append(out, c18Triple{cp(t.pw, t.s1[:k]), cp(t.s1[k:]), t.s2, "shift:pw<-salt1"})
+		out = append(out, c18Triple{cp(t.pw, t.s1), []byte{}, t.s2, "shift:pw<-all-of-salt1"})
+		k = 1 + r.Intn(min(n, 3))
+		out = append(out, c18Triple{t.pw, cp(t.s1[:n-k]), cp(t.s1[n-k:], t.s2), "shift:salt1->salt2"})
+	}
+	if n := len(t.pw); n > 1 {
+		k := 1 + r.Intn(min(n-1, 3))
+		out = append(out, c18Triple{cp(t.pw[:n-k]), cp(t.pw[n-k:], t.s1), t.s2, "shift:pw->salt1"})
+	}
+	if n := len(t.s2); n > 0 {
+		k := 1 + r.Intn(min(n, 3))
+		out = append(out, c18Triple{t.pw, cp(t.s1, t.s2[:k]), cp(t.s2[k:]), "shift:salt1<-salt2"})
+	}
+	return out
+}
+
+// sequence: honest exchanges for t and then for every triple of sameConcat(t), in one operation
+func (c *c18Gen) sequence(t c18Triple, gr c18Group) {
+	var lines []string
+	c.collect = &lines
+	c.honest(t, gr, c.g.R.Bytes(256), c.randNum(256), true)
+	for _, v := range c.sameConcat(t) {
+		c.honest(v, gr, c.g.R.Bytes(256), c.randNum(256), true)
+	}
+	c.collect = nil
+	c.g.Emit("c18.seq "+strings.Join(lines, " ; "), "sequence", "sequence:same-concatenation-other-boundaries", "group:"+gr.name)
 }
 
 func (c *c18Gen) emitPub(t c18Triple, kind string, gr c18Group, srpB []byte, id int64, v, b *big.Int, tags ...string) {
@@ -727,6 +820,16 @@ func c18Gen_(g *G) {
 
 		// 7. the public entry point
 		c.public(t, wrongs[0], tg[(ti+3)%len(tg)])
+	}
+
+	// 8. one client, several accounts, one process: (password, salt1, salt2) triples that are the same bytes
+	// when written one after the other, the boundaries between the three parts moved
+	nSeq := 2
+	if g.Thorough() {
+		nSeq = 6
+	}
+	for ti := 0; ti < nSeq && ti < len(triples); ti++ {
+		c.sequence(triples[ti], tg[(ti+1)%len(tg)])
 	}
 
 	// empty password: the 'no password' answer whatever else is given
